@@ -210,7 +210,7 @@ func q(a []string) string { return fmt.Sprintf("%q", a) }
 
 // Run is the C12 check.
 func Run(ctx *core.Ctx) {
-	ctx.Rule = "glob layer: groups of 6 well-formed patterns from the globref grammar (literal, *, ?, classes, ranges, negation, escapes, metacharacter first, escape before the first wildcard, prefixes ending in 0x00/0xff, multi-byte) with a shared universe of 30-64 names placed on each pattern's range boundaries (prefix, prefix+0x00, prefix+0xff, last byte +-1, shortened prefix) plus generated matches, near misses and noise; the universe is loaded as ids (strings and points mixed), as string values, as collection keys, as hook names and as channel names; per pattern SCAN/SEARCH MATCH (ASC, DESC, COUNT, two MATCH clauses), WITHIN/INTERSECTS/NEARBY MATCH, KEYS, HOOKS, CHANS, PDEL, PDELHOOK, PDELCHAN are compared with {x : globref(p,x)} of the unfiltered listing. field layer: datasets with fields of every value kind (missing, numbers, strings, true, false, null, JSON); SCAN/SEARCH/WITHIN/INTERSECTS/NEARBY with WHERE (6 operators, inclusive/exclusive ranges, +-inf) over comparison values of every kind, WHEREIN, WHEREEVAL and pairs of them are compared with a client-side evaluation (Null < False < Number < String(case-insensitive) < True < JSON, missing = 0), COUNT with len(IDS) of the same query (also under LIMIT), DESC with reverse(ASC). in-package layer: (pattern, name) pairs against Parse(p).Limits as each caller reads them. non-trivial = the pattern/filter selects a proper non-empty subset; distinct key = (pattern shape class or filter shape class, command)"
+	ctx.Rule = "glob layer: groups of 6 well-formed patterns from the globref grammar (literal, *, ?, classes, ranges, negation, escapes, metacharacter first, escape before the first wildcard, prefixes ending in 0x00/0xff, multi-byte) with a shared universe of 30-64 names placed on each pattern's range boundaries (prefix, prefix+0x00, prefix+0xff, last byte +-1, shortened prefix) plus generated matches, near misses and noise; the universe is loaded as ids (strings and points mixed), as string values, as collection keys, as hook names and as channel names; per pattern SCAN/SEARCH MATCH (ASC, DESC, COUNT, two MATCH clauses), WITHIN/INTERSECTS/NEARBY MATCH, KEYS, HOOKS, CHANS, PDEL, PDELHOOK, PDELCHAN are compared with {x : globref(p,x)} of the unfiltered listing. field layer: datasets with fields of every value kind (missing, numbers, strings, true, false, null, JSON); SCAN/SEARCH/WITHIN/INTERSECTS/NEARBY with WHERE (6 operators, inclusive/exclusive ranges, +-inf) over comparison values of every kind, WHEREIN (1-4 and 16-40 listed values, numbers in several spellings), WHEREEVAL and pairs of them are compared with a client-side evaluation (Null < False < Number < String(case-insensitive) < True < JSON, missing = 0), COUNT with len(IDS) of the same query (also under LIMIT), DESC with reverse(ASC). in-package layer: (pattern, name) pairs against Parse(p).Limits as each caller reads them. non-trivial = the pattern/filter selects a proper non-empty subset; distinct key = (pattern shape class or filter shape class, command)"
 	ctx.Assumptions = []string{
 		"two MATCH clauses select the union of both patterns (the documented syntax has a single MATCH; the server ORs them)",
 		"field values are restricted to texts whose kind is unambiguous (plain decimals, words, true/false/null, minified lower-case JSON); no NaN, no dotted field names, no field named z",
